@@ -123,6 +123,25 @@ def render_route(r) -> str:
     return ' '.join(parts)
 
 
+SAFI_WORD = {1: 'unicast', 2: 'multicast', 4: 'nlri-mpls', 128: 'mpls-vpn'}
+
+
+def render_family(r) -> str:
+    """the same route in the `announce <afi> <safi> <prefix> ...` grammar of the API"""
+    addr, mask = r['prefix']
+    parts = [f'ipv{4 if r["afi"] == 1 else 6} {SAFI_WORD[r["safi"]]} {addr}/{mask}']
+    if r.get('pid') is not None:
+        parts.append(f'path-information {ipaddress.ip_address(r["pid"])}')
+    parts.append('next-hop ' + r['nh'])
+    if r.get('rd') is not None:
+        parts.append('rd ' + r['rd'][0])
+    if r.get('labels') is not None:
+        parts.append('label [ ' + ' '.join(str(x) for x in r['labels']) + ' ]')
+    for k, v in r['attrs'].items():
+        parts.append(render_attr(k, v))
+    return ' '.join(parts)
+
+
 def render_attr(k, v) -> str:
     if k == 'origin':
         return f'origin {v}'
@@ -418,13 +437,19 @@ def get_session(idx, s):
 OTHER_LOCAL = '127.0.0.9'
 
 
-def emit(neighbor, neg, api, text, via='api', others_first=(), others_after=()):
+def emit(neighbor, neg, api, text, via='api', others_first=(), others_after=(), fam=None):
     """text -> bytes through the real code path. Returns (messages, error-string or None).
     others_first / others_after: neighbors of the same daemon the command matches as well; they are served the same
     parsed route objects before / after the neighbor under observation."""
     from exabgp.rib.outgoing import OutgoingRIB
 
-    routes = api.api_route(text, 'announce')
+    if fam is None:
+        routes = api.api_route(text, 'announce')
+    else:
+        try:
+            routes = (api.api_announce_v4 if fam == 1 else api.api_announce_v6)(text, 'announce')
+        except ValueError:
+            routes = []   # the refusal of this grammar
     if not routes:
         return None, 'refused'
     for o in others_first:
@@ -475,7 +500,7 @@ def emit_config(s, text):
 
 
 def run_case(sidx, s, r, via='api'):
-    text = render_route(r)
+    text = render_family(r) if via == 'fam' else render_route(r)
     try:
         if via == 'config':
             msgs, err = emit_config(s, text)
@@ -485,6 +510,8 @@ def run_case(sidx, s, r, via='api'):
                 msgs, err = emit(neighbor, neg, api, text, others_first=(other,))
             elif via == 'api-multi-after':
                 msgs, err = emit(neighbor, neg, api, text, others_after=(other,))
+            elif via == 'fam':
+                msgs, err = emit(neighbor, neg, api, text, fam=r['afi'])
             else:
                 msgs, err = emit(neighbor, neg, api, text)
     except Exception as e:  # noqa: BLE001
@@ -571,6 +598,28 @@ def worker(args):
                         v = res['viol'].get(sig)
                         case = {'session': s, 'route': _jsonable(r), 'via': 'config'}
                         res['viol'][sig] = (what, case, 1) if v is None else (v[0], v[1], v[2] + 1)
+    # the `announce <afi> <safi> ...` grammar of the API: every NLRI shape, no attribute and every single attribute
+    # deviation (core shapes: every pair), every other session
+    for sidx, s in enumerate(sess):
+        if sidx % 2:
+            continue
+        for shape in shapes:
+            afi, safi, p, pid, lab, rd = shape
+            is_core = (afi, safi, p, pid) in core_shapes and (lab in (None, LABELS[1])) and (rd in (None, RDS[0]))
+            for nh in nexthops(afi, s)[:2]:
+                for attrs in attr_sets(2 if is_core and nh != 'self' else 1):
+                    idx += 1
+                    if idx % nshards != shard:
+                        continue
+                    r = dict(afi=afi, safi=safi, prefix=p, pid=pid, labels=lab, rd=rd, nh=nh, attrs=attrs)
+                    viols, text = run_case(sidx, s, r, via='fam')
+                    res['exec'] += 1
+                    res['family_grammar'] = res.get('family_grammar', 0) + 1
+                    for sig, what in viols:
+                        sig = 'fam:' + sig
+                        v = res['viol'].get(sig)
+                        case = {'session': s, 'route': _jsonable(r), 'via': 'fam'}
+                        res['viol'][sig] = (what, case, 1) if v is None else (v[0], v[1], v[2] + 1)
     _S.clear()
     res['outcomes'] = list(res['outcomes'])
     return res
@@ -610,7 +659,7 @@ def run(ctx: core.Ctx) -> None:
     ctx.rule = (f'{len(sess)} negotiated sessions (iBGP/eBGP x 2-/4-byte local and peer AS x ASN4 on either side x ADD-PATH send x extended next hop x 4096/65535 x AIGP) '
                 f'x {len(nlri_shapes(ctx.tier))} NLRI shapes (unicast/labeled/VPN, IPv4/IPv6, boundary masks, 4 path ids, 4 label stacks, 3 RD types) x next hops (address, self, IPv6 for IPv4 when negotiated) '
                 f'x attribute sets: default + every <=1 attribute deviation for all shapes, <= {2 if ctx.tier == "quick" else 3} simultaneous deviations for 5 core shapes, over a {sum(len(v) for v in ATTR_ALPHABET.values())}-value alphabet of 13 keywords; '
-                'non-trivial = at least one attribute given')
+                'the same through the configuration-file path (core shapes, every fourth session) and through the `announce <afi> <safi>` grammar of the API (every shape, every other session, single deviations; pairs for core shapes); non-trivial = at least one attribute given')
     ctx.assumptions += ['reference decoder vt/ref/wire.py', 'text rendered by vt/checks/c01.render_route from the abstract route', 'tolerances of DESIGN.md 4.x (attribute order, LOCAL_PREF given on eBGP, as-path sent as given, AIGP only when enabled)']
     nshards = 256
     pool = mp.Pool(min(16, os.cpu_count() or 1))
@@ -621,6 +670,7 @@ def run(ctx: core.Ctx) -> None:
             ctx.count('nontrivial', res['nontrivial'])
             ctx.count('config_path_cases', res.get('config_path', 0))
             ctx.count('multi_neighbor_cases', res.get('multi_neighbor', 0))
+            ctx.count('family_grammar_cases', res.get('family_grammar', 0))
             outcomes.update(res['outcomes'])
             for smp in res['samples']:
                 ctx.sample(smp)
@@ -642,4 +692,6 @@ def replay(case):
     viols, text = run_case(0, s, r, via=via)
     if via.startswith('api-multi'):
         return [{'signature': 'multi-neighbor:' + sig, 'what': what} for sig, what in viols]
+    if via == 'fam':
+        return [{'signature': 'fam:' + sig, 'what': what} for sig, what in viols]
     return [{'signature': sig if (via == 'api' or sig.startswith('refused:')) else 'config:' + sig, 'what': what} for sig, what in viols]
